@@ -98,9 +98,17 @@ func (g *gen) historyOps(ledgerName string, n int, withSchema bool) []Op {
 		case KTxMetaSet:
 			op.Metadata = map[string]string{"m." + op.ID: Pick(g.r, weird)}
 			metaKeys[op.TxID] = append(metaKeys[op.TxID], "m."+op.ID)
+			if g.r.Chance(0.6) {
+				// a key every such write overwrites with a value of its own: the copy must end on the last one
+				// (wave 16, C11e: the import-only merge of a SET_METADATA log kept the older value)
+				op.Metadata["stage"] = "st-" + op.ID
+			}
 		case KAcctMetaSet:
 			op.Metadata = map[string]string{"m." + op.ID: Pick(g.r, weird)}
 			acctKeys[op.Address] = append(acctKeys[op.Address], "m."+op.ID)
+			if g.r.Chance(0.6) {
+				op.Metadata["tier"] = "t-" + op.ID
+			}
 		case KTxMetaDel:
 			// signature of a delete log = the key without its "d." prefix: make it unique
 			op.Sig = strings.TrimPrefix(op.Key, "d.")
@@ -181,9 +189,11 @@ func init() {
 		sc.Setup = append(sc.Setup, Op{ID: g.id("s"), Kind: KCreateLedger, Ledger: "dst", Feats: feats})
 		// prior history of dst: empty / imported prefix / already written
 		prior := r.Intn(4)
+		priorTo := 0
 		switch prior {
 		case 1:
-			sc.Setup = append(sc.Setup, Op{ID: g.id("s"), Kind: KImport, Ledger: "dst", From: "src", ImportTo: 2, Chunked: 1 << 20})
+			priorTo = 2 + r.Intn(3)
+			sc.Setup = append(sc.Setup, Op{ID: g.id("s"), Kind: KImport, Ledger: "dst", From: "src", ImportTo: priorTo, Chunked: 1 << 20})
 			sc.Params["prior"] = "prefix"
 		case 2:
 			w := Op{ID: g.id("s"), Kind: KPostings, Ledger: "dst", Postings: []PostingSpec{{"world", "w:0", "1", "USD"}}}
@@ -192,8 +202,16 @@ func init() {
 		}
 		var clients [][]Op
 		imp := Op{ID: "c0.0", Kind: KImport, Ledger: "dst", From: "src", Chunked: Pick(r, []int{64, 300, 1 << 20})}
-		if prior == 1 && r.Bool() {
-			imp.ImportFrom = 3
+		if prior == 1 {
+			switch r.Intn(3) {
+			case 0:
+				imp.ImportFrom = priorTo + 1 // the continuation
+			case 1:
+				// a stream that overlaps the imported prefix without starting at its first log: refused for the
+				// log that already exists, before anything of it is applied (wave 16, C12f)
+				imp.ImportFrom = 2 + r.Intn(priorTo-1)
+				sc.Params["overlap"] = fmt.Sprint(imp.ImportFrom)
+			}
 		}
 		clients = append(clients, []Op{imp})
 		nw := 1 + r.Intn(2)
@@ -395,6 +413,12 @@ func checkImportCopy(r *runner, views map[string]*LedgerView) []Violation {
 			if n > 0 {
 				vs = append(vs, Violation{prop, "rejected-import-has-no-effect", fmt.Sprintf("%s was rejected (%d %s %s) but committed %d logs", op.ID, or.Out.Status, or.Out.Code, or.Out.Msg, n)})
 			}
+			if ov := r.sc.Params["overlap"]; ov != "" && op.ID == "c0.0" && fmt.Sprint(op.ImportFrom) == ov &&
+				!strings.Contains(or.Out.Msg, "already exists") && !strings.Contains(or.Out.Msg, "not in initializing state") {
+				vs = append(vs, Violation{prop, "an-overlapping-import-is-refused-for-the-existing-log", fmt.Sprintf("%s sends logs from id %s on, which the ledger already holds; it was refused with %d %s %q - not for the log that exists", op.ID, ov, or.Out.Status, or.Out.Code, or.Out.Msg)})
+			}
+		case or.Out.Class == "ok" && len(or.Faults) == 0 && r.sc.Params["overlap"] != "" && op.ID == "c0.0" && fmt.Sprint(op.ImportFrom) == r.sc.Params["overlap"]:
+			vs = append(vs, Violation{prop, "an-overlapping-import-is-refused-for-the-existing-log", fmt.Sprintf("%s sends logs from id %s on, which the ledger already holds, and was accepted", op.ID, r.sc.Params["overlap"])})
 		case or.Out.Class == "server_err" && len(or.Faults) == 0 && !uncertain(or):
 			vs = append(vs, Violation{prop, "import-answers", fmt.Sprintf("%s answered %d %s without any injected fault", op.ID, or.Out.Status, or.Out.Msg)})
 		}
